@@ -4,6 +4,7 @@ package props
 // hash-list roots, byte-stream roots, whole-sector roots.
 
 import (
+	"strings"
 	"bytes"
 	"encoding/binary"
 	"fmt"
@@ -394,6 +395,17 @@ func (t *c16task) hashListCase(hs []c16H, kind string, withModel bool) {
 	if withModel && n <= 600 {
 		t.modelC("rhp-roots "+c16HexList(hs),
 			c16Hex(got[0])+" "+c16Hex(got[1])+" "+c16Hex(got[2])+" "+c16Hex(got[3]), 30+5*n)
+		// the 4-lane sectorAccumulator model (appendNode) and the model of Go's MetaRoot
+		var saRoot c16H
+		if p, _ := fw.Recover(func() {
+			var sa rhp2.VerifSectorAccumulator
+			for _, h := range hs {
+				sa.AppendNode(h)
+			}
+			saRoot = sa.Root()
+		}); !p {
+			t.modelC("rhp-saroot "+c16HexList(hs), c16Hex(saRoot)+" "+c16Hex(got[0]), 30+5*n)
+		}
 	}
 }
 
@@ -595,6 +607,50 @@ func (t *c16task) byteStreamCase(data []byte, name string, cseed int64, withMode
 	}
 	if withModel && k <= 700 {
 		t.modelC("rhp-sectorroot "+c16HexData(data), c16Hex(whole), 30+3*k)
+		// the 4-lane model against the real sectorAccumulator on a random feeding plan; one plan
+		// respects the alignment precondition of appendLeaves, one does not (the model must
+		// reproduce whatever the code computes, right or wrong)
+		for _, aligned := range []bool{true, false} {
+			var plan []string
+			sa := &rhp2.VerifSectorAccumulator{}
+			var got c16H
+			p, _ := fw.Recover(func() {
+				pos := 0
+				for pos < k {
+					m := 1 + rng.Intn(9)
+					if m > k-pos {
+						m = k - pos
+					}
+					useLeaves := rng.Intn(2) == 0
+					if aligned && pos%4 != 0 && m >= 4 {
+						useLeaves = false
+					}
+					if useLeaves {
+						sa.AppendLeaves(data[64*pos : 64*(pos+m)])
+						plan = append(plan, fmt.Sprintf("l%d", m))
+					} else {
+						for i := 0; i < m; i++ {
+							sa.AppendNode(lh[pos+i])
+						}
+						plan = append(plan, fmt.Sprintf("n%d", m))
+					}
+					pos += m
+				}
+				got = sa.Root()
+			})
+			if p {
+				continue
+			}
+			if aligned && got != want {
+				t.violate("c16-root-mismatch:rhp2.sectorAccumulator.plan", fmt.Sprintf("sectorAccumulator fed %d leaves by plan %s differs from the plain tree", k, strings.Join(plan, ",")), rep("plan "+strings.Join(plan, ",")), c16Hex(want), c16Hex(got))
+			}
+			ps := "-"
+			if len(plan) > 0 {
+				ps = strings.Join(plan, ",")
+			}
+			t.count(fmt.Sprintf("stream:sa-plan:aligned=%v", aligned))
+			t.modelC("rhp-saleaves "+c16HexData(data)+" "+ps, c16Hex(got), 30+4*k)
+		}
 	}
 	// a stream that is not a whole number of leaves must be refused
 	extra := 1 + rng.Intn(63)
